@@ -19,6 +19,11 @@ def projects():
     ps.append(('{\n  "a": 1 // {or: [{type: "integer", min: 0}, {type: "string", minLength: 1}]}\n}', {}, {}))
     ps.append(('{\n  "a": @a\n}', {'@a': '1 // {or: [{type: "integer"}, {type: "@b"}]}', '@b': '"s" // {or: [{type: "string", minLength: 1}, {type: "@a"}]}'}, {}))
     ps.append(('{\n  "x": 1 // {enum: @e1}\n}', {'@t': '2 // {enum: @e2}'}, {'@e1': '[1, 2]', '@e2': '[2, 3]'}))
+    # several broken types whose names are close under case folding, prefixes, digits and punctuation: whichever is visited
+    # first decides the reported error, so any visiting order that is not a function of the name set shows here
+    ps.append(('{\n  "a": 1\n}', {'@Cat': '{"x": @missingOne}', '@cat': '{"y": @missingTwo}', '@CAT': '{"z": @missingThree}'}, {}))
+    ps.append(('{\n  "a": 1\n}', {'@a': '{"x": @m1}', '@a1': '{"y": @m2}', '@a_1': '{"z": @m3}', '@a-1': '{"z": @m4}'}, {}))
+    ps.append(('{\n  "a": 1\n}', {'@Ab': '{ // {allOf: "@n1"}\n}', '@aB': '{ // {allOf: "@n2"}\n}', '@ab': '{ // {allOf: "@n3"}\n}'}, {}))
     ps.append(('@t', {'@t': '{"x": @t}'}, {}))
     ps.append(('{"a": 1,', {'@t': '{"x": '}, {}))
     return ps
